@@ -144,7 +144,7 @@ def drive(tier):
 
 def run(tier):
     rep = Report("C12", tier)
-    rep.add_mc("MC_Address", vlib.run_mc("MC_Address"))
+    rep.add_mc("MC_Address", vlib.run_mc("MC_Address", cfg="MC_Address" if tier == "quick" else "MC_Address_thorough"))
     recs = drive(tier)
     mm = vlib.validate("Trace_Address", recs)
     rep.apply_mismatches(recs, mm)
